@@ -103,7 +103,7 @@ def _run_contract(args):
         rep.source_hashes = fhash
         rep.seconds = time.time() - t0
         return _pack(rep, c)
-    except Exception:  # noqa
+    except BaseException:  # noqa
         rep = verify.FunctionReport(cname, [])
         rep.crash = traceback.format_exc()
         return _pack(rep, None)
